@@ -50,7 +50,11 @@ def run(chk):
         st = (c.get('cfg') or {}).get('style') or {}
         if st.get('bare_start') and '["ref", "R"]' not in json.dumps(c['g']['rules']['start']):
             # an unreferenced rule is dropped so that the description can be the bare expression alone
-            del c['g']['rules']['R']
+            for extra in ('R', 'K', 'L', 'T', 'U'):
+                c['g']['rules'].pop(extra, None)
+            keep = [i for i, r in enumerate(c['runs']) if r[0] == 'start']
+            c['runs'] = [c['runs'][i] for i in keep]
+            c['exp'] = [c['exp'][i] for i in keep]
             nbare += 1
     chk.notes['bare_expression_cases'] = nbare
     chk.notes['chain_cases'] = nchain
